@@ -84,6 +84,9 @@ CATALOGUE = {
     'on-key': b'ON KEY(A%) GOSUB 0',
     'palette': b'PALETTE A%,B%',
     'noise': b'NOISE A%,B%,C%',
+    # a collection inside the first string expression of a session (no permanent string exists yet)
+    'fre-in-first-string': b'R$=STRING$(A% AND 3,"a")+MID$("q",1+0*FRE(""))',
+    'fre-in-first-string-2': b'R$=STRING$(A% AND 3,"a")+STRING$(B% AND 3,"b"): R%=FRE(R$)',
     # single-precision argument S! (all 2^32 bit patterns)
     'f-string-char': b'R$=STRING$(2,S!)',
     'f-chr': b'R$=CHR$(S!)',
